@@ -241,6 +241,7 @@ fn adversary_trace(rng: &mut SmallRng, steps: usize) -> Sim {
             cands.push((8, json!({"op": "task", "e": "A", "gr": 1, "gs": 0})));
             cands.push((6, json!({"op": "task", "e": "A", "gr": 0, "gs": 1})));
             cands.push((4, json!({"op": "task", "e": "A", "gr": 1, "gs": 1})));
+            cands.push((2, json!({"op": "task", "e": "A", "gr": 1, "gs": 1, "gf": 0})));
         }
         if sim.wire_len(0) > 0 {
             cands.push((6, json!({"op": "take", "e": "B"})));
@@ -395,6 +396,8 @@ fn random_trace(mode: &str, rng: &mut SmallRng, steps: usize) -> Sim {
                 cands.push((6, json!({"op": "task", "e": e, "gr": 0, "gs": 1})));
                 cands.push((4, json!({"op": "task", "e": e, "gr": 1, "gs": 1})));
                 cands.push((1, json!({"op": "task", "e": e, "gr": 0, "gs": 0})));
+                // the sink takes its time to flush: the message handed over in this poll stays invisible to the peer
+                cands.push((2, json!({"op": "task", "e": e, "gr": pick(rng, &[0, 1]), "gs": 1, "gf": 0})));
             }
             if sim.eps[i].mux.is_some() {
                 if (i == 0 || opens_both) && opened[i] < max_streams {
